@@ -155,6 +155,27 @@ ROUND6 = {
 }
 
 
+ROUND8 = {
+    "C01": " Rounds 7-8: delayed products in mixed models; the propensity probe's buffer is prefilled with NaN (hook 53cd504).",
+    "C02": " Round 8: every operator in every position with a volume-sensitive argument; one-shot (start / time) rules on the volume path.",
+    "C03": " Round 7: the interface requested three times on a model with a valueless parameter.",
+    "C04": " Round 8: a short input pulse simulated with the hmax keyword against an independent DOP853 reference.",
+    "C05": " Round 8: master-equation comparison also through the safe interface with a volume.",
+    "C06": " Round 7: a chain sharing one rate constant through three simulators.",
+    "C07": " Round 8: the same system built in one go and in steps (reaction added later, also after a run), non-idempotent rule chain.",
+    "C08": " Round 8: a pre-built interface used across runs on refined grids.",
+    "C10": " Round 8: the entry point on grids whose spacing differs from the interface's dt.",
+    "C13": " Round 7: shadowed globals with value 0.",
+    "C14": " Round 7: zero-valued constants; every parameter of the document carries a value.",
+    "C15": " Round 8: measurements replaced through the setters between cost evaluations (defect repaired, 39eaba5).",
+    "C16": " Round 8: integer-typed prior specifications.",
+    "C17": " Round 7: tracked lineages whose mother kept one daughter.",
+    "C18": " Round 8: the module-level functions across parameter changes of one model.",
+    "C19": " Round 7: one lineage simulator object serves all runs.",
+    "C20": " Round 8: queues built on transposed and sliced backing arrays.",
+}
+
+
 def main():
     props = [json.loads(l) for l in open(os.path.join(HERE, "properties.jsonl"))]
     checks, na = [], []
@@ -162,7 +183,7 @@ def main():
         pid = p["id"]
         if pid in CLAIMED:
             c = dict(CLAIMED[pid])
-            c["text"] = c["text"] + ROUND4.get(pid, "") + ROUND5.get(pid, "") + ROUND6.get(pid, "")
+            c["text"] = c["text"] + ROUND4.get(pid, "") + ROUND5.get(pid, "") + ROUND6.get(pid, "") + ROUND8.get(pid, "")
             checks.append({
                 "property_id": pid,
                 "quick_cmd": "./check %s quick" % pid,
